@@ -90,6 +90,13 @@ func c20drivers() []c20driver {
 				{Name: "session", Constructor: P("pk.New3"), Scope: P("contextual")}, {Name: "zzTodo", Todo: P(true), Scope: P("non_shared")}, {Name: "zzz", Constructor: P("pk.New4"), Scope: P("contextual"), Args: []any{"%pf%"}}}
 		}), threads: [][]ProbeOp{{opCtx("getctx", "A", "handler")}, {opCtx("getctx", "B", "handler")}, {opCtx("getctx", "A", "session")}},
 			threads2: [][]ProbeOp{{opCtx("getctx", "A", "handler"), opCtx("getctx", "B", "zzz")}, {opCtx("getctx", "B", "handler"), op("param", "alias")}, {opCtx("getctx", "A", "zzz"), op("param", "pf")}}},
+		{id: "bare-service-contextual-by-decorator", contexts: []string{"A", "B"}, cfg: base(func(c *Cfg) {
+			// nothing is injected into handler itself; it is contextual because the decorator on its tag takes a contextual service
+			c.Services = []Service{{Name: "handler", Constructor: P("pk.New1"), Tags: []Tag{{Name: "http"}}}, {Name: "requestID", Constructor: P("pk.New2"), Scope: P("contextual")},
+				{Name: "bareValue", Value: P("&pk.Obj{}"), Scope: P("contextual")}, {Name: "front", Constructor: P("pk.New3"), Args: []any{"@handler", "@bareValue"}}}
+			c.Decorators = []Decorator{{Tag: "http", Decorator: "pk2.Dec1", Args: []any{"@requestID"}}}
+		}), threads: [][]ProbeOp{{opCtx("getctx", "A", "handler")}, {opCtx("getctx", "B", "handler")}, {opCtx("getctx", "A", "requestID")}},
+			threads2: [][]ProbeOp{{opCtx("getctx", "A", "front"), opCtx("getctx", "B", "requestID")}, {opCtx("getctx", "B", "front"), opCtx("getctx", "A", "bareValue")}, {opCtx("getctx", "A", "handler"), opCtx("getctx", "B", "bareValue")}}},
 		{id: "typed-getters", cfg: base(func(c *Cfg) {
 			c.Params = []Param{{"dsn", `%env("C20_DSN", "default-dsn")%`}}
 			c.Services = []Service{{Name: "db", Constructor: P("pk.New"), Args: []any{"%dsn%"}, Getter: P("FetchDb"), Type: P("*pk.Obj"), MustGetter: P(true)}}
@@ -102,7 +109,7 @@ func init() {
 	Register(&Check{
 		ID:    "C20",
 		Level: "model_checking",
-		Rule: "12 drivers (contextual services declared after todo services + single-reference alias parameters of a function parameter, shared chain with a multi-chunk parameter, %fn()% parameter used by two parameters, multi-chunk concatenation, contextual + unset-resolving-to-contextual under two attached contexts, non_shared + shared, tagged pair + consumer, decorated service, typed getters, several env()/envInt() chunks, a contextual service whose definition is spread over two files) x 3 threads x 1 operation on the same names: every interleaving with <= 2 preemptions (quick) / <= 3 preemptions and 2 operations per thread within a time budget (thorough); scheduling points before every Mutex.Lock, RWMutex.RLock/Lock and Once.Do of the runtime copy and before every statement of the generated code; " +
+		Rule: "13 drivers (a service with nothing injected that is contextual through the decorator on its tag, contextual services declared after todo services + single-reference alias parameters of a function parameter, shared chain with a multi-chunk parameter, %fn()% parameter used by two parameters, multi-chunk concatenation, contextual + unset-resolving-to-contextual under two attached contexts, non_shared + shared, tagged pair + consumer, decorated service, typed getters, several env()/envInt() chunks, a contextual service whose definition is spread over two files) x 3 threads x 1 operation on the same names: every interleaving with <= 2 preemptions (quick) / <= 3 preemptions and 2 operations per thread within a time budget (thorough); scheduling points before every Mutex.Lock, RWMutex.RLock/Lock and Once.Do of the runtime copy and before every statement of the generated code; " +
 			"per execution: no deadlock, every operation returns exactly what the sequential run returns (canonical object graphs incl. identity across threads), construction / function-call counters equal the sequential run's (each shared service and each parameter built once), contextual instances of distinct contexts distinct. Separate free-running pass of the same bodies with the real sync package under -race (16 goroutines x 600 rounds per driver). states = executions (complete schedules), transitions = scheduling decisions",
 		Assumptions: []string{
 			"the scheduler controls sync.Mutex, sync.RWMutex (writer preference) and sync.Once of the runtime's container package and every statement boundary of generated code; unsynchronised accesses below that granularity are left to the -race pass",
